@@ -128,15 +128,15 @@ Proof.
   rewrite Hsup, Hrnd, Hjs in HbA. rewrite HbA in HbB. congruence.
 Qed.
 
-(** and every order is available to every dial: for any target permutation of the kept list
-    there are admissible draws of THIS dial that produce it, whatever happened before *)
-Theorem dial_k_any_order st ops1 scid target :
-  wf_spec st -> sRnd (edits st ops1) = true ->
-  Permutation (suppress (sSup (edits st ops1)) (sParams st)) target ->
+(** and every order of the kept list is available to a randomised dial: for any target
+    permutation there are admissible draws that produce it (a statement about [wire_list], which
+    C11_dial_k_wire / C11_hdial_k_wire identify with the wire of the k-th dial of any history) *)
+Theorem wire_list_any_order sup scid ps target :
+  Permutation (suppress sup ps) target ->
   exists js, admissible (length target - 1) js /\
-             wire_list (sSup (edits st ops1)) true js scid (sParams st) = map idval (map (fill scid) target).
+             wire_list sup true js scid ps = map idval (map (fill scid) target).
 Proof.
-  intros _ _ Hp.
+  intros Hp.
   destruct (shuffle_surjective _ _ Hp) as [js [Ha Hs]].
   exists js. split.
   - rewrite <- (Permutation_length Hp). exact Ha.
